@@ -2,7 +2,7 @@
 `util.get_term_ex` (translated from the live source) is the model's `getTermEx`: the generated
 `get_term_ex` equals its specification `Ref.get_term_ex` (Model/PyRt.lean) on every reference.
 -/
-import Mathy.Gen.PySrc
+import Mathy.Gen.PySrcUtil
 import Mathy.Model.Rules
 namespace Mathy.SrcAgree
 open Mathy.Py Mathy.Gen.Src
